@@ -1,4 +1,5 @@
 import Model.ApiConv
+import Model.ApiConvX
 import Driver.Util
 /-!
   Line protocol of the C18 correspondence run (API <-> native converters).
@@ -239,6 +240,253 @@ def rFrom (r : Option Attr) : String :=
   | none => "err"
   | some a => s!"ok {rAttr a} wire={hex (encAttr a)} len={attrLen a}"
 
+
+/-! ### second group: extended communities, IPv6 extended communities, MP_REACH / MP_UNREACH.
+    The canonical rendering of these values IS their description syntax (one token stream):
+    EXT   := ec2 st as la tr | ecip st addr la tr | ec4 st as la tr | val s | lbw as bw | col c | enc t | dgw
+           | opq tr HEX | esil label single | esim HEX | macm seq sticky | rmac HEX | unk t HEX | noapi HEX
+    IP6   := s st HEX la tr | r HEX la | u t HEX
+    RD    := r2 a n | rip a n | r4 a n            NLRI := ip bits HEX | lb LIST bits HEX | vp LIST RD bits HEX
+    XATTR := flags typ length ( E n EXT* | E6 n IP6* | R afi safi NH LL n (id NLRI)* | N afi safi n (id NLRI)* )
+    API:  AEXT := Ec2 tr st asn la | Ecip tr st HEX la | Ec4 tr st asn la | Val s | Lbw asn bw | Col c | Enc t | Dgw
+           | Opq tr HEX | Esil single label | Esim HEX | Macm sticky seq | Rmac HEX | Unk t HEX | Xe
+          AIP6 := S tr st HEX la | R HEX la | X6     ARD := R2 a n | Rip HEX n | R4 a n | Xr
+          ANLRI := Pf len HEX | Lp LIST len HEX | Lv LIST ARD len HEX | Xn
+          AXATTR := AE n AEXT* | AE6 n AIP6* | AR afi safi k HEX* n ANLRI* | AN afi safi n ANLRI* -/
+
+def bS (b : Bool) : String := if b then "1" else "0"
+def lS (l : List Nat) : String := " ".intercalate (toString l.length :: l.map toString)
+
+def rExt : ExtComm → String
+  | .twoOctetAs st as la tr => s!"ec2 {st} {as} {la} {bS tr}"
+  | .ipv4 st a la tr => s!"ecip {st} {a} {la} {bS tr}"
+  | .fourOctetAs st as la tr => s!"ec4 {st} {as} {la} {bS tr}"
+  | .validation x => s!"val {x}"
+  | .linkBandwidth as bw => s!"lbw {as} {bw}"
+  | .color c => s!"col {c}"
+  | .encap t => s!"enc {t}"
+  | .defaultGateway => "dgw"
+  | .opaque tr v => s!"opq {bS tr} {hex v}"
+  | .esiLabel l sa => s!"esil {l} {bS sa}"
+  | .esImport m => s!"esim {hex m}"
+  | .macMobility q st => s!"macm {q} {bS st}"
+  | .routerMac m => s!"rmac {hex m}"
+  | .unknown t v => s!"unk {t} {hex v}"
+  | .noApiMessage o => s!"noapi {hex o}"
+
+def pExt : List String → Option (ExtComm × List String)
+  | "ec2" :: st :: as :: la :: tr :: r => some (.twoOctetAs (nat! st) (nat! as) (nat! la) (b! tr), r)
+  | "ecip" :: st :: a :: la :: tr :: r => some (.ipv4 (nat! st) (nat! a) (nat! la) (b! tr), r)
+  | "ec4" :: st :: as :: la :: tr :: r => some (.fourOctetAs (nat! st) (nat! as) (nat! la) (b! tr), r)
+  | "val" :: x :: r => some (.validation (nat! x), r)
+  | "lbw" :: as :: bw :: r => some (.linkBandwidth (nat! as) (nat! bw), r)
+  | "col" :: c :: r => some (.color (nat! c), r)
+  | "enc" :: t :: r => some (.encap (nat! t), r)
+  | "dgw" :: r => some (.defaultGateway, r)
+  | "opq" :: tr :: h :: r => (unhex h).map fun b => (.opaque (b! tr) b, r)
+  | "esil" :: l :: sa :: r => some (.esiLabel (nat! l) (b! sa), r)
+  | "esim" :: h :: r => (unhex h).map fun b => (.esImport b, r)
+  | "macm" :: q :: st :: r => some (.macMobility (nat! q) (b! st), r)
+  | "rmac" :: h :: r => (unhex h).map fun b => (.routerMac b, r)
+  | "unk" :: t :: h :: r => (unhex h).map fun b => (.unknown (nat! t) b, r)
+  | "noapi" :: h :: r => (unhex h).map fun b => (.noApiMessage b, r)
+  | _ => none
+
+def rApiExt : ApiExtComm → String
+  | .twoOctetAs tr st as la => s!"Ec2 {bS tr} {st} {as} {la}"
+  | .ipv4 tr st a la => s!"Ecip {bS tr} {st} {hex a} {la}"
+  | .fourOctetAs tr st as la => s!"Ec4 {bS tr} {st} {as} {la}"
+  | .validation x => s!"Val {x}"
+  | .linkBandwidth as bw => s!"Lbw {as} {bw}"
+  | .color c => s!"Col {c}"
+  | .encap t => s!"Enc {t}"
+  | .defaultGateway => "Dgw"
+  | .opaque tr v => s!"Opq {bS tr} {hex v}"
+  | .esiLabel sa l => s!"Esil {bS sa} {l}"
+  | .esImport m => s!"Esim {hex m}"
+  | .macMobility st q => s!"Macm {bS st} {q}"
+  | .routerMac m => s!"Rmac {hex m}"
+  | .unknown t v => s!"Unk {t} {hex v}"
+  | .unset => "Xe"
+
+def pApiExt : List String → Option (ApiExtComm × List String)
+  | "Ec2" :: tr :: st :: as :: la :: r => some (.twoOctetAs (b! tr) (nat! st) (nat! as) (nat! la), r)
+  | "Ecip" :: tr :: st :: h :: la :: r => (unhex h).map fun b => (.ipv4 (b! tr) (nat! st) b (nat! la), r)
+  | "Ec4" :: tr :: st :: as :: la :: r => some (.fourOctetAs (b! tr) (nat! st) (nat! as) (nat! la), r)
+  | "Val" :: x :: r => some (.validation (nat! x), r)
+  | "Lbw" :: as :: bw :: r => some (.linkBandwidth (nat! as) (nat! bw), r)
+  | "Col" :: c :: r => some (.color (nat! c), r)
+  | "Enc" :: t :: r => some (.encap (nat! t), r)
+  | "Dgw" :: r => some (.defaultGateway, r)
+  | "Opq" :: tr :: h :: r => (unhex h).map fun b => (.opaque (b! tr) b, r)
+  | "Esil" :: sa :: l :: r => some (.esiLabel (b! sa) (nat! l), r)
+  | "Esim" :: h :: r => (unhex h).map fun b => (.esImport b, r)
+  | "Macm" :: st :: q :: r => some (.macMobility (b! st) (nat! q), r)
+  | "Rmac" :: h :: r => (unhex h).map fun b => (.routerMac b, r)
+  | "Unk" :: t :: h :: r => (unhex h).map fun b => (.unknown (nat! t) b, r)
+  | "Xe" :: r => some (.unset, r)
+  | _ => none
+
+def rIp6 : Ip6ExtComm → String
+  | .specific st a la tr => s!"s {st} {hex a} {la} {bS tr}"
+  | .redirect a la => s!"r {hex a} {la}"
+  | .unknown t v => s!"u {t} {hex v}"
+def pIp6 : List String → Option (Ip6ExtComm × List String)
+  | "s" :: st :: h :: la :: tr :: r => (unhex h).map fun b => (.specific (nat! st) b (nat! la) (b! tr), r)
+  | "r" :: h :: la :: r => (unhex h).map fun b => (.redirect b (nat! la), r)
+  | "u" :: t :: h :: r => (unhex h).map fun b => (.unknown (nat! t) b, r)
+  | _ => none
+def rApiIp6 : ApiIp6ExtComm → String
+  | .specific tr st a la => s!"S {bS tr} {st} {hex a} {la}"
+  | .redirect a la => s!"R {hex a} {la}"
+  | .unset => "X6"
+def pApiIp6 : List String → Option (ApiIp6ExtComm × List String)
+  | "S" :: tr :: st :: h :: la :: r => (unhex h).map fun b => (.specific (b! tr) (nat! st) b (nat! la), r)
+  | "R" :: h :: la :: r => (unhex h).map fun b => (.redirect b (nat! la), r)
+  | "X6" :: r => some (.unset, r)
+  | _ => none
+
+def rRd : Rd → String
+  | .twoOctet a n => s!"r2 {a} {n}"
+  | .ipv4 a n => s!"rip {a} {n}"
+  | .fourOctet a n => s!"r4 {a} {n}"
+def pRd : List String → Option (Rd × List String)
+  | "r2" :: a :: n :: r => some (.twoOctet (nat! a) (nat! n), r)
+  | "rip" :: a :: n :: r => some (.ipv4 (nat! a) (nat! n), r)
+  | "r4" :: a :: n :: r => some (.fourOctet (nat! a) (nat! n), r)
+  | _ => none
+def rApiRd : ApiRd → String
+  | .twoOctet a n => s!"R2 {a} {n}"
+  | .ipAddress a n => s!"Rip {hex a} {n}"
+  | .fourOctet a n => s!"R4 {a} {n}"
+  | .unset => "Xr"
+def pApiRd : List String → Option (ApiRd × List String)
+  | "R2" :: a :: n :: r => some (.twoOctet (nat! a) (nat! n), r)
+  | "Rip" :: h :: n :: r => (unhex h).map fun b => (.ipAddress b (nat! n), r)
+  | "R4" :: a :: n :: r => some (.fourOctet (nat! a) (nat! n), r)
+  | "Xr" :: r => some (.unset, r)
+  | _ => none
+
+def rNlriX : Nlri → String
+  | .ip bits a => s!"ip {bits} {hex a}"
+  | .labeled ls bits a => s!"lb {lS ls} {bits} {hex a}"
+  | .vpn ls rd bits a => s!"vp {lS ls} {rRd rd} {bits} {hex a}"
+def pNlriX : List String → Option (Nlri × List String)
+  | "ip" :: bits :: h :: r => (unhex h).map fun b => (.ip (nat! bits) b, r)
+  | "lb" :: r =>
+    match takeList r with
+    | (ls, bits :: h :: r') => (unhex h).map fun b => (.labeled ls (nat! bits) b, r')
+    | _ => none
+  | "vp" :: r =>
+    match takeList r with
+    | (ls, r1) =>
+      match pRd r1 with
+      | some (rd, bits :: h :: r') => (unhex h).map fun b => (.vpn ls rd (nat! bits) b, r')
+      | _ => none
+  | _ => none
+def rApiNlri : ApiNlri → String
+  | .pfx len a => s!"Pf {len} {hex a}"
+  | .labeledPrefix ls len a => s!"Lp {lS ls} {len} {hex a}"
+  | .labeledVpn ls rd len a => s!"Lv {lS ls} {rApiRd rd} {len} {hex a}"
+  | .unset => "Xn"
+def pApiNlri : List String → Option (ApiNlri × List String)
+  | "Pf" :: len :: h :: r => (unhex h).map fun b => (.pfx (nat! len) b, r)
+  | "Lp" :: r =>
+    match takeList r with
+    | (ls, len :: h :: r') => (unhex h).map fun b => (.labeledPrefix ls (nat! len) b, r')
+    | _ => none
+  | "Lv" :: r =>
+    match takeList r with
+    | (ls, r1) =>
+      match pApiRd r1 with
+      | some (rd, len :: h :: r') => (unhex h).map fun b => (.labeledVpn ls rd (nat! len) b, r')
+      | _ => none
+  | "Xn" :: r => some (.unset, r)
+  | _ => none
+
+def pMany {α} (f : List String → Option (α × List String)) : Nat → List String → Option (List α × List String)
+  | 0, ts => some ([], ts)
+  | n + 1, ts =>
+    match f ts with
+    | some (a, r) => (pMany f n r).map fun (l, r') => (a :: l, r')
+    | none => none
+
+def pIdNlri : List String → Option ((Nat × Nlri) × List String)
+  | id :: r => (pNlriX r).map fun (n, r') => ((nat! id, n), r')
+  | _ => none
+
+def joinS (l : List String) : String := " ".intercalate l
+def cnt {α} (l : List α) (f : α → String) : String := joinS (toString l.length :: l.map f)
+
+def rXVal : XVal → String
+  | .extComms l => s!"E {cnt l rExt}"
+  | .ip6ExtComms l => s!"E6 {cnt l rIp6}"
+  | .mpReach afi safi nh ll ns => s!"R {afi} {safi} {hex nh} {hex ll} {cnt ns fun p => s!"{p.1} {rNlriX p.2}"}"
+  | .mpUnreach afi safi ns => s!"N {afi} {safi} {cnt ns fun p => s!"{p.1} {rNlriX p.2}"}"
+def rXAttr (a : XAttr) : String := s!"{a.flags} {a.typ} {a.length} {rXVal a.val}"
+
+def pXVal : List String → Option (XVal × List String)
+  | "E" :: n :: r => (pMany pExt (nat! n) r).map fun (l, r') => (.extComms l, r')
+  | "E6" :: n :: r => (pMany pIp6 (nat! n) r).map fun (l, r') => (.ip6ExtComms l, r')
+  | "R" :: afi :: safi :: nh :: ll :: n :: r =>
+    match unhex nh, unhex ll, pMany pIdNlri (nat! n) r with
+    | some a, some b, some (l, r') => some (.mpReach (nat! afi) (nat! safi) a b l, r')
+    | _, _, _ => none
+  | "N" :: afi :: safi :: n :: r => (pMany pIdNlri (nat! n) r).map fun (l, r') => (.mpUnreach (nat! afi) (nat! safi) l, r')
+  | _ => none
+def pXAttr : List String → Option (XAttr × List String)
+  | f :: t :: l :: r => (pXVal r).map fun (v, r') => (⟨nat! f, nat! t, nat! l, v⟩, r')
+  | _ => none
+
+def rApiX : ApiXAttr → String
+  | .extComms l => s!"AE {cnt l rApiExt}"
+  | .ip6ExtComms l => s!"AE6 {cnt l rApiIp6}"
+  | .mpReach f nhs ns => s!"AR {f.afi} {f.safi} {cnt nhs hex} {cnt ns rApiNlri}"
+  | .mpUnreach f ns => s!"AN {f.afi} {f.safi} {cnt ns rApiNlri}"
+def pApiX : List String → Option (ApiXAttr × List String)
+  | "AE" :: n :: r => (pMany pApiExt (nat! n) r).map fun (l, r') => (.extComms l, r')
+  | "AE6" :: n :: r => (pMany pApiIp6 (nat! n) r).map fun (l, r') => (.ip6ExtComms l, r')
+  | "AR" :: afi :: safi :: k :: r =>
+    match pHexes (nat! k) r with
+    | some (nhs, n :: r1) => (pMany pApiNlri (nat! n) r1).map fun (l, r') => (.mpReach ⟨nat! afi, nat! safi⟩ nhs l, r')
+    | _ => none
+  | "AN" :: afi :: safi :: n :: r => (pMany pApiNlri (nat! n) r).map fun (l, r') => (.mpUnreach ⟨nat! afi, nat! safi⟩ l, r')
+  | _ => none
+
+def rXFrom (r : Option XAttr) : String :=
+  match r with
+  | none => "err"
+  | some a => s!"ok {rXAttr a} wire={hex (encXAttr a)} len={xattrLen a}"
+
+
+/-! ### api.Path level: `tpath isVrf del afi safi NLRI age wd peerAsn PID PADDR ext niw rid lid best stale n (c ATTR | x XATTR)*`
+    answers apiutil2Path followed by toPathApiUtil -/
+def pAny : List String → Option (AnyAttr × List String)
+  | "c" :: r => (pAttr r).map fun (a, r') => (.core a, r')
+  | "x" :: r => (pXAttr r).map fun (a, r') => (.x a, r')
+  | _ => none
+
+def encAny : AnyAttr → Bytes
+  | .core a => encAttr a
+  | .x a => encXAttr a
+
+def rUPath (u : UPath) : String :=
+  s!"ok {u.afi} {u.safi} {rNlriX u.nlri} {u.age} {bS u.withdrawal} {u.peerAsn} {hex u.peerId} {hex u.peerAddress} " ++
+  s!"{bS u.isFromExternal} {bS u.noImplicitWithdraw} {u.remoteId} {u.localId} {bS u.best} {bS u.stale} " ++
+  s!"{bS u.isNexthopInvalid} {bS u.sendMaxFiltered} {bS u.filtered} A=" ++ ",".intercalate (u.attrs.map fun a => hex (encAny a))
+
+def pTPath : List String → Option (Bool × Bool × UPath)
+  | vrf :: del :: afi :: safi :: r =>
+    match pNlriX r with
+    | some (n, age :: wd :: asn :: pid :: paddr :: ext :: niw :: rid :: lid :: best :: stale :: k :: r1) =>
+      match unhex pid, unhex paddr, pMany pAny (nat! k) r1 with
+      | some a, some b, some (attrs, []) =>
+        some (b! vrf, b! del, ⟨nat! afi, nat! safi, n, nat! age, b! best, attrs, b! stale, b! wd, nat! asn, a, b,
+          b! ext, b! niw, false, false, false, none, nat! rid, nat! lid⟩)
+      | _, _, _ => none
+    | _ => none
+  | _ => none
+
 def step (s : Unit) (ts : List String) : Unit × List String :=
   match ts with
   | "toapi" :: rest =>
@@ -286,6 +534,24 @@ def step (s : Unit) (ts : List String) : Unit × List String :=
       match fromApiCap a with
       | none => (s, ["err"])
       | some c => (s, [s!"ok {rCap c} wire={hex (encCap c)}"])
+    | none => (s, ["bad-op"])
+  | "xtoapi" :: rest =>
+    match pXAttr rest with
+    | some (a, []) =>
+      match toApiX a with
+      | some x => (s, [rApiX x])
+      | none => (s, ["marshal-error"])
+    | _ => (s, ["bad-op"])
+  | "xfromapi" :: rest =>
+    match pApiX rest with
+    | some (a, []) => (s, [rXFrom (fromApiX a)])
+    | _ => (s, ["bad-op"])
+  | "tpath" :: rest =>
+    match pTPath rest with
+    | some (vrf, del, u) =>
+      match apiutil2table vrf del u with
+      | some t => (s, [rUPath (table2apiutil t)])
+      | none => (s, ["err"])
     | none => (s, ["bad-op"])
   | [] => (s, [])
   | _ => (s, ["bad-op"])
